@@ -86,6 +86,25 @@ CHECKS = {
             'options must be rejected.',
             'Trusts the selection model (written from the statement); empty rule lists and rules naming an ancestor of '
             'another rule are outside the alphabet.', 'DESIGN.md 3 C15'),
+    'C08': ('input-enumerator',
+            'exhaustive enumeration of crash-point subsets (checkpoint, abandon, restore on a fresh loop) over generated '
+            'Process programs and WorkChain outlines x decision sequences, differential against the uninterrupted run',
+            'For every generated Process program and every WorkChain outline x decision sequence, every subset of <=M '
+            'state-entry boundaries is taken as crash points: Bundle -> pickle (thorough: deepcopy, yaml) -> the running '
+            'instance is abandoned by an exception out of the ENTERED callback -> unbundle on a fresh loop -> continue; '
+            'executed steps (persisted trace and cross-instance log), outputs, ctx, final state and result must equal the '
+            'uninterrupted run.',
+            'Steps depend only on persisted state; checkpoints at state entry and right after construction; bounds M and '
+            'families as reported in the evidence.', 'DESIGN.md 3 C08'),
+    'C19': ('input-enumerator',
+            'bounded-exhaustive enumeration of Savable class shapes x member kinds x future states x loader configurations '
+            'on the real save/load code',
+            'Inheritance chains of auto_persist declarations over plain, bound-method, nested-Savable and SavableFuture '
+            'members x future state x {default, global custom, per-save custom loader with/without load context} are '
+            'saved, the original mutated, and loaded again; restored members, absence of undeclared members, save-load-save '
+            'identity, untouched parent classes, use of the recorded loader and ValueError for unknown identifiers are '
+            'checked.',
+            'Member values are the small fixed ones of the generated classes.', 'DESIGN.md 3 C19'),
 }
 
 ALL = [f'C{i:02d}' for i in range(1, 21)]
